@@ -25,7 +25,7 @@ def alphabet(name):
         line = [l for l in r.out.splitlines() if l.startswith('"{')][0]
         d = json.loads(json.loads(line))
         for k, v in d.items():
-            _ALPHA[k] = [([expand(y) for y in x] if isinstance(x, list) else expand(x)) for x in v]
+            _ALPHA[k] = [([expand(y) for y in x] if isinstance(x, list) else (expand(x) if isinstance(x, str) else x)) for x in v]
     return _ALPHA[name]
 
 
